@@ -490,8 +490,27 @@ func runC28(c *core.Ctx) {
 	}), e.puts, "putBlockHeader", nil)
 	eng.Dominates(c, "C28.reject", fn, eng.ErrNilOf("verifyHeader (proof of work)", vh), e.puts, "putBlockHeader", nil)
 	// era dispatch decision table
+	var eraHost *ssa.Function
 	if expected != nil {
 		leaves := eng.PhiLeaves(nil, expected)
+		// the dispatch may sit in a same-package helper that returns the expected difficulty
+		if len(leaves) == 1 {
+			if cl, _ := ir.CallOf(leaves[0]); cl != nil {
+				if h := cl.Common().StaticCallee(); h != nil && h.Pkg == fn.Pkg && h.Parent() == nil && len(h.Blocks) > 1 && h.Name() != "difficultyCalculator" {
+					var ls []ssa.Value
+					for _, hb := range h.Blocks {
+						if ret, isRet := hb.Instrs[len(hb.Instrs)-1].(*ssa.Return); isRet && len(ret.Results) == 1 {
+							ls = append(ls, eng.PhiLeaves(nil, ret.Results[0])...)
+						}
+					}
+					if len(ls) > 1 {
+						leaves, eraHost = ls, h
+						defer ir.BindParams(h, cl.Common().Args)()
+						c.Attribute(h, fn)
+					}
+				}
+			}
+		}
 		var eras []string
 		for _, l := range leaves {
 			cl, _ := ir.CallOf(l)
@@ -565,7 +584,11 @@ func runC28(c *core.Ctx) {
 	}
 	// every era predicate in SyncBlockHeader is evaluated on the header under verification (not its parent)
 	nPred := 0
-	for _, b := range fn.Blocks {
+	predBlocks := append([]*ssa.BasicBlock{}, fn.Blocks...)
+	if eraHost != nil {
+		predBlocks = append(predBlocks, eraHost.Blocks...)
+	}
+	for _, b := range predBlocks {
 		for _, in := range b.Instrs {
 			cl, ok := in.(*ssa.Call)
 			if !ok || cl.Common().StaticCallee() == nil {
